@@ -731,6 +731,13 @@ def _falls_off(f):
 @rule("C01.R6", "directive payloads are the open token slice after the keyword; #if feeds expander then evaluator")
 def r6(ctx):
     repo = ctx.repo
+    # Decided on decision tables with events (state-changing parser calls kept in order, reads carry version marks):
+    # on every successful path the payload handed to the node is `self.tokens[self.pos@k:]` with k >= number of
+    # consuming calls made before it - the open slice from the position AFTER the keyword (and the macro head), never a
+    # slice taken before the keyword was consumed, never a bounded one.
+    from .. import review
+    from ..spec import vt as _vt
+
     dp = repo.cls("preprocessor", "DirectiveParser")
     for name in ("if_", "elif_", "pragma", "define", "include"):
         f = dp.find_method(name)
@@ -738,43 +745,36 @@ def r6(ctx):
         if f is None:
             ctx.violation(key, "method missing", dp.loc())
             continue
-        slices = [
-            n for n in walk_no_nested(f.node)
-            if isinstance(n, ast.Subscript) and u(n.value) == "self.tokens" and isinstance(n.slice, ast.Slice)
-        ]
-        good = []
-        for s in slices:
-            sl = s.slice
-            if sl.upper is None and sl.step is None and sl.lower is not None:
-                lo = u(sl.lower)
-                if lo == "self.pos":
-                    good.append(s)
-                elif isinstance(sl.lower, ast.Name):
-                    # local bound to self.pos after the keyword match
-                    asg = [n for n in walk_no_nested(f.node) if isinstance(n, ast.Assign) and u(n.targets[0]) == lo]
-                    if len(asg) == 1 and u(asg[0].value) == "self.pos" and asg[0].lineno > _kw_line(f):
-                        good.append(s)
-        ctx.soft(
-            len(slices) >= 1 and len(good) == len(slices),
-            key,
-            f"payload slices {[u(s) for s in slices]} must all be `self.tokens[<pos after keyword>:]` (no token dropped or kept twice)",
-            f.loc(),
-        )
-    # IfNode pipeline
+        t = review.table(f, unroll=1, events=True)
+        if isinstance(t, Exception) or not t:
+            raise AnalysisError(f"DirectiveParser.{name}: decision table not available ({t})")
+        n_ok = 0
+        for p in t:
+            if p.result[0] != "return":
+                continue
+            res = vtext(p.result[1])
+            consumed = sum(1 for e in p.effects if e[0] == "call" and str(e[1]).startswith("self.match"))
+            for m in re.finditer(r"self\.tokens\[([^\[\]]*)\]", res):
+                sl = m.group(1)
+                if ":" not in sl:
+                    continue
+                lo, _, hi = sl.partition(":")
+                mm = re.fullmatch(r"self\.pos(?:@(\d+))?", lo)
+                ok = mm is not None and hi == "" and int(mm.group(1) or 0) >= max(1, consumed)
+                n_ok += ok
+                ctx.check(ok, key, f"the payload is `self.tokens[{sl}]`; it must be the open slice from the position after the keyword (`self.tokens[self.pos:]` read after the keyword was consumed): a token is dropped or kept twice otherwise", f.loc())
+        if name in ("if_", "elif_", "pragma", "define") and not n_ok:
+            raise AnalysisError(f"DirectiveParser.{name}: no path hands an open token slice to its node: idiom not recognised")
+    # IfNode pipeline (ElIfNode inherits it)
     ifn = repo.cls("preprocessor", "IfNode").find_method("evaluate_for_platform")
     key = "preprocessor:IfNode.evaluate_for_platform:pipeline"
-    env = {n.targets[0].id: n.value for n in walk_no_nested(ifn.node) if isinstance(n, ast.Assign) and isinstance(n.targets[0], ast.Name)}
-    rets = [n.value for n in walk_no_nested(ifn.node) if isinstance(n, ast.Return)]
-    ok = False
-    why = "no return"
-    if len(rets) == 1 and isinstance(rets[0], ast.Call) and u(rets[0].func).endswith(".evaluate") and isinstance(rets[0].func.value, ast.Call):
-        ee = rets[0].func.value
-        arg = ee.args[0] if ee.args else None
-        if isinstance(arg, ast.Name):
-            arg = env.get(arg.id, arg)
-        why = f"evaluator input is {u(arg)}"
-        ok = callee(ee) == "ExpressionEvaluator" and u(arg) == "MacroExpander(kwargs['platform']).expand(self.expr)"
-    ctx.soft(ok, key, f"#if must evaluate ExpressionEvaluator(MacroExpander(platform).expand(self.expr)).evaluate(): {why}", ifn.loc())
+    t = review.table(ifn, unroll=1)
+    if isinstance(t, Exception) or not t:
+        raise AnalysisError(f"IfNode.evaluate_for_platform: decision table not available ({t})")
+    for p in t:
+        res = _vt(p.result[1]) if p.result[0] == "return" else ""
+        ok = res == "ExpressionEvaluator(MacroExpander(kwargs['platform']).expand(self.expr)).evaluate()" and not [k for k in p.atoms if not k.startswith("raises(")]
+        ctx.check(ok, key, f"#if must evaluate ExpressionEvaluator(MacroExpander(platform).expand(self.expr)).evaluate() - the complete expression, expanded for this platform: returns `{res[:120]}` under {list(p.atoms)[:2]}", ifn.loc())
     ctx.floor(6)
 
 
